@@ -183,6 +183,19 @@ func (o *Oracle) Check(st *Step, obs *StepObs, c02, c11 bool) []Finding {
 	if obs.FaultsHit > 0 {
 		bucket("fault-hit")
 	}
+	if obs.Reloads == 0 && obs.Commands > 0 {
+		zero := false
+		for _, b := range obs.Backs {
+			for _, e := range b.Res {
+				if e.Enabled && e.Weight == 0 {
+					zero = true
+				}
+			}
+		}
+		if zero {
+			bucket("dynamic-with-enabled-weight-0")
+		}
+	}
 	// certificates renewed in this step: files, and files whose new content is the same
 	renewedFiles := map[string]string{}
 	for _, h := range obs.Hosts {
